@@ -15,6 +15,12 @@ def check(run):
     ec.run_family(run, 'C07-join-wideA-narrowB', 'Q_C07join', 'R_w3', recsB='R_w1', maxA=1, maxB=1, hdrmodes=(True,), opts={'nontrivial_rule': 'header'})
     ec.run_family(run, 'C07-alias-after-boolean-operator', 'Q_C07bool', 'R_2x2', maxA=1, hdrmodes=(False, True), opts={'nontrivial_rule': 'header'})
     ec.run_family(run, 'C07-aggregates', 'Q_C07agg', 'R_2x2', maxA=1, hdrmodes=(False, True), opts={'nontrivial_rule': 'header'})
+    # the JavaScript port derives its header with its own code (rbql-js/rbql.js is an anchor of this property)
+    ec.run_family_js(run, 'C07-js-lists', 'Q_C07', 'R_2x2', maxA=1, hdrmodes=(False, True), opts={'nontrivial_rule': 'header'})
+    ec.run_family_js(run, 'C07-js-join', 'Q_C07join', 'R_2x2', recsB='R_2x2', maxA=1, maxB=1, hdrmodes=(False, True))
+    ec.run_family_js(run, 'C07-js-alias-after-boolean-operator', 'Q_C07bool', 'R_2x2', maxA=1, hdrmodes=(False, True))
+    ec.run_family_js(run, 'C07-js-aggregates', 'Q_C07agg', 'R_2x2', maxA=1, hdrmodes=(False, True))
+    ec.run_family_js(run, 'C07-js-except', 'Q_C01exc', 'R_w3N', maxA=1, hdrmodes=(False, True))
     ec.run_family(run, 'C07-update-except', 'Q_C05swap', 'R_2x2', maxA=1, hdrmodes=(False, True), opts={'nontrivial_rule': 'header'})
     ec.run_family(run, 'C07-except', 'Q_C01exc', 'R_w3N', maxA=1, hdrmodes=(False, True), opts={'nontrivial_rule': 'header'})
     run.exhaustive = True
